@@ -18,6 +18,10 @@ def judge(ops, single, percall):
                 key = "C21/state-store-closes-shared-connection"
                 what = ("single_connection=True: op #%d %s raised sqlite3.ProgrammingError (closed database); "
                         "per-call mode returned %r" % (i, short(ops[i]), b))
+            elif any(o[0] == "reopen" for o in ops[:i]):
+                key = "C21/single-connection-loses-data-on-reopen"
+                what = ("after closing and reopening the store, op #%d %s: single-connection %r, per-call %r"
+                        % (i, short(ops[i]), a, b))
             else:
                 key = "C21/single-connection-result-differs"
                 what = "op #%d %s: single-connection %r, per-call %r" % (i, short(ops[i]), a, b)
@@ -31,6 +35,15 @@ def short(o):
 
 
 def shrink(dbdir, ops, key):
+    """Delete operations of the generated part; the read-back suffix stays."""
+    nb = len(K.READ_BACK)
+    suffix = list(ops[-nb:]) if list(ops[-nb:]) == list(K.READ_BACK) else []
+    body = list(ops[:len(ops) - len(suffix)])
+    body = _shrink(dbdir, body, suffix, key)
+    return body + suffix
+
+
+def _shrink(dbdir, ops, suffix, key):
     cur, budget, changed = list(ops), 60, True
     while changed and budget > 0:
         changed = False
@@ -41,8 +54,8 @@ def shrink(dbdir, ops, key):
             if not cand:
                 continue
             budget -= 1
-            a, b = K.run_both(dbdir, 900000 + budget, cand)
-            if key in [k for k, _, _ in judge(cand, a, b)]:
+            a, b = K.run_both(dbdir, 900000 + budget, cand + suffix)
+            if key in [k for k, _, _ in judge(cand + suffix, a, b)]:
                 cur, changed = cand, True
     return cur
 
@@ -66,7 +79,7 @@ def run(ctx):
     closes = "false" if only_own == "true" else "true"
     cases, exprs, fails = [], [], []
     cov = dict(state_op_then_store_op=0, seed_then_op=0, copy_with_source=0, state_ops=0, store_ops=0,
-               two_session_state_ops=0, typed_state_ops=0, closed_results=0)
+               two_session_state_ops=0, typed_state_ops=0, closed_results=0, reopen_mid_sequence=0)
     kinds = {}
     try:
         for i in range(n):
@@ -102,7 +115,7 @@ def run(ctx):
     ctx.suite("connstore", cases=len(exprs), ops=sum(len(o) for o in cases), disagreements=len(bad),
               monitor_failures=len(fails), op_kinds=kinds, **cov)
     for k in ("state_op_then_store_op", "seed_then_op", "copy_with_source", "two_session_state_ops",
-              "typed_state_ops"):
+              "typed_state_ops", "reopen_mid_sequence"):
         ctx.require_coverage("connstore", k, cov[k], 5)
     if bad and not fails:
         i = bad[0]
@@ -129,6 +142,8 @@ def measure(cov, kinds, ops, single):
             if seen_seed:
                 cov["seed_then_op"] += 1
             seen_state = True
+        elif o[0] == "reopen":
+            cov["reopen_mid_sequence"] += 1
         elif o[0] in ("seed", "copy"):
             if o[0] == "copy" and o[1] != o[2]:
                 cov["copy_with_source"] += 1
